@@ -27,10 +27,14 @@ CONSTANTS Front,        \* "v2" | "legacy"
           Reasons,      \* Nack reason codes (abstract indices; the executor maps them to 0, 150, 2^32+5, ...)
           Envs,         \* link-layer envelopes a packet may arrive in: "bare", "lp", "lph" (LP + optional/unknown headers)
           Junk,         \* classes of undeliverable byte strings
+          Defer,        \* {FALSE}: every Interest is awaited at once; BOOLEAN: the caller may also await it later
           Dev           \* subset of {"legacySlowValidator"}
 
-VARIABLES now, up, used, ph, tm, dl, out, vrun
-vars == <<now, up, used, ph, tm, dl, out, vrun>>
+VARIABLES now, up, used, ph, tm, dl, out, vrun,
+          aw,    \* the caller is awaiting the Interest (its lifetime timer exists only then)
+          held,  \* legacy: Data held by an Interest nobody awaits yet (the validator starts when it is awaited)
+          buf    \* outcome already decided for an Interest nobody awaits yet
+vars == <<now, up, used, ph, tm, dl, out, vrun, aw, held, buf>>
 
 Entry == 1..MaxEntries
 NoOut == [k |-> "none", d |-> 0, r |-> 0, v |-> "-", at |-> 0]
@@ -54,10 +58,12 @@ Init ==
   /\ dl = [e \in Entry |-> 0]
   /\ out = [e \in Entry |-> NoOut]
   /\ vrun = [e \in Entry |-> 0]
+  /\ aw = [e \in Entry |-> FALSE]
+  /\ held = [e \in Entry |-> 0]
+  /\ buf = [e \in Entry |-> NoOut]
 
 \* the lifetime timer of e is armed
-Armed(e) == \/ ph[e] = "pend"
-            \/ ph[e] = "val"
+Armed(e) == aw[e] /\ ph[e] \in {"pend", "val"}
 Due == { e \in Entry : Armed(e) /\ dl[e] = now }
 \* legacy front-end, known finding: the validator runs after the lifetime accounting, so a slow
 \* validator is not turned into a timeout.  The deviation lets such timers not fire.
@@ -66,36 +72,42 @@ MayNotFire(e) == "legacySlowValidator" \in Dev /\ Front = "legacy" /\ ph[e] = "v
 Finish(e, o) == /\ out' = [out EXCEPT ![e] = o]
                 /\ ph' = [ph EXCEPT ![e] = "fin"]
 
-Express(t) ==
+Express(t, df) ==
   /\ up /\ used < MaxEntries /\ now + t.life <= MaxT
   /\ LET e == used + 1 IN
        /\ used' = e
        /\ ph' = [ph EXCEPT ![e] = "pend"]
        /\ tm' = [tm EXCEPT ![e] = t]
        /\ dl' = [dl EXCEPT ![e] = now + t.life]
-  /\ UNCHANGED <<now, up, out, vrun>>
+       /\ aw' = [aw EXCEPT ![e] = ~df]
+  /\ UNCHANGED <<now, up, out, vrun, held, buf>>
 
 \* expressing while the face is down is refused with NetworkError; nothing changes
 ExpressDown(t) == ~up /\ UNCHANGED vars
 
 Satisfied(d) == { e \in Entry : ph[e] = "pend" /\ Matches(d, tm[e]) }
+\* v2 starts the validator at once (a task of its own); legacy runs it in the awaiting coroutine
+ValidatesNow(e) == Front = "v2" \/ aw[e]
 RecvData(d, env) ==
   /\ up
-  /\ ph' = [e \in Entry |-> IF e \in Satisfied(d) THEN "val" ELSE ph[e]]
-  /\ vrun' = [e \in Entry |-> IF e \in Satisfied(d) THEN d.id ELSE vrun[e]]
-  /\ UNCHANGED <<now, up, used, tm, dl, out>>
+  /\ ph' = [e \in Entry |-> IF e \in Satisfied(d) THEN (IF ValidatesNow(e) THEN "val" ELSE "got") ELSE ph[e]]
+  /\ vrun' = [e \in Entry |-> IF e \in Satisfied(d) /\ ValidatesNow(e) THEN d.id ELSE vrun[e]]
+  /\ held' = [e \in Entry |-> IF e \in Satisfied(d) /\ ~ValidatesNow(e) THEN d.id ELSE held[e]]
+  /\ UNCHANGED <<now, up, used, tm, dl, out, aw, buf>>
 
 \* the validator invoked for entry e returns v (v2: also after the entry timed out / was cancelled:
 \* the late verdict is ignored)
 ValFinish(e, v) ==
   /\ vrun[e] # 0
   /\ vrun' = [vrun EXCEPT ![e] = 0]
-  /\ IF ph[e] = "val"
-     THEN Finish(e, IF Accepting(v)
-                    THEN [k |-> "data", d |-> vrun[e], r |-> 0, v |-> "-", at |-> now]
-                    ELSE [k |-> "vfail", d |-> vrun[e], r |-> 0, v |-> Reported(v), at |-> now])
-     ELSE UNCHANGED <<ph, out>>
-  /\ UNCHANGED <<now, up, used, tm, dl>>
+  /\ LET o == IF Accepting(v)
+               THEN [k |-> "data", d |-> vrun[e], r |-> 0, v |-> "-", at |-> now]
+               ELSE [k |-> "vfail", d |-> vrun[e], r |-> 0, v |-> Reported(v), at |-> now] IN
+     IF ph[e] = "val" /\ aw[e] THEN Finish(e, o) /\ UNCHANGED buf
+     ELSE IF ph[e] = "val"
+          THEN /\ ph' = [ph EXCEPT ![e] = "ready"] /\ buf' = [buf EXCEPT ![e] = o] /\ UNCHANGED out
+          ELSE UNCHANGED <<ph, out, buf>>
+  /\ UNCHANGED <<now, up, used, tm, dl, aw, held>>
 
 \* every lifetime timer due at this instant fires
 Fire ==
@@ -105,7 +117,7 @@ Fire ==
        /\ (S = {} => \E e \in Due : MayNotFire(e))
        /\ out' = [e \in Entry |-> IF e \in S THEN [k |-> "timeout", d |-> 0, r |-> 0, v |-> "-", at |-> now] ELSE out[e]]
        /\ ph' = [e \in Entry |-> IF e \in S THEN "fin" ELSE IF e \in Due THEN "late" ELSE ph[e]]
-  /\ UNCHANGED <<now, up, used, tm, dl, vrun>>
+  /\ UNCHANGED <<now, up, used, tm, dl, vrun, aw, held, buf>>
 
 \* a "late" entry (deviation only) behaves like "val" without a timer
 LateFinish(e, v) ==
@@ -114,45 +126,67 @@ LateFinish(e, v) ==
   /\ Finish(e, IF Accepting(v)
                THEN [k |-> "data", d |-> vrun[e], r |-> 0, v |-> "-", at |-> now]
                ELSE [k |-> "vfail", d |-> vrun[e], r |-> 0, v |-> Reported(v), at |-> now])
-  /\ UNCHANGED <<now, up, used, tm, dl>>
+  /\ UNCHANGED <<now, up, used, tm, dl, aw, held, buf>>
 
 Tick ==
   /\ now < MaxT
   /\ Due = {}
   /\ now' = now + 1
-  /\ UNCHANGED <<up, used, ph, tm, dl, out, vrun>>
+  /\ UNCHANGED <<up, used, ph, tm, dl, out, vrun, aw, held, buf>>
 
 \* the caller cancels the task that awaits the Interest
 Cancel(e) ==
-  /\ ph[e] \in {"pend", "val", "late"}
+  /\ aw[e] /\ ph[e] \in {"pend", "val", "late"}
   /\ Finish(e, [k |-> "cancel", d |-> 0, r |-> 0, v |-> "-", at |-> now])
-  /\ UNCHANGED <<now, up, used, tm, dl, vrun>>
+  /\ UNCHANGED <<now, up, used, tm, dl, vrun, aw, held, buf>>
+
+\* the caller starts awaiting an Interest it expressed earlier. (Awaiting an unanswered Interest only
+\* after its deadline is outside the model: the library then grants an arbitrary grace period.)
+Await(e) ==
+  /\ ~aw[e] /\ ph[e] \in {"pend", "val", "got", "ready"}
+  /\ aw' = [aw EXCEPT ![e] = TRUE]
+  /\ IF ph[e] = "ready"
+     THEN /\ out' = [out EXCEPT ![e] = [buf[e] EXCEPT !.at = now]]
+          /\ ph' = [ph EXCEPT ![e] = "fin"]
+          /\ UNCHANGED <<vrun, held>>
+     ELSE /\ now < dl[e]
+          /\ IF ph[e] = "got"
+             THEN /\ ph' = [ph EXCEPT ![e] = "val"]
+                  /\ vrun' = [vrun EXCEPT ![e] = held[e]]
+                  /\ held' = [held EXCEPT ![e] = 0]
+             ELSE UNCHANGED <<ph, vrun, held>>
+          /\ UNCHANGED out
+  /\ UNCHANGED <<now, up, used, tm, dl, buf>>
 
 \* the face shuts down: every Interest still waiting for a packet is cancelled; Interests whose
 \* Data already arrived (validator running) finish on their own
+Cancelled == [k |-> "cancel", d |-> 0, r |-> 0, v |-> "-", at |-> now]
 Shutdown ==
   /\ up /\ up' = FALSE
-  /\ out' = [e \in Entry |-> IF ph[e] = "pend" THEN [k |-> "cancel", d |-> 0, r |-> 0, v |-> "-", at |-> now] ELSE out[e]]
-  /\ ph' = [e \in Entry |-> IF ph[e] = "pend" THEN "fin" ELSE ph[e]]
-  /\ UNCHANGED <<now, used, tm, dl, vrun>>
+  /\ out' = [e \in Entry |-> IF ph[e] = "pend" /\ aw[e] THEN Cancelled ELSE out[e]]
+  /\ buf' = [e \in Entry |-> IF ph[e] = "pend" /\ ~aw[e] THEN Cancelled ELSE buf[e]]
+  /\ ph' = [e \in Entry |-> IF ph[e] = "pend" THEN (IF aw[e] THEN "fin" ELSE "ready") ELSE ph[e]]
+  /\ UNCHANGED <<now, used, tm, dl, vrun, aw, held>>
 
 Nacked(t) == { e \in Entry : ph[e] = "pend" /\ SameFullName(tm[e], t) }
 RecvNack(t, r, env) ==
   /\ up
-  /\ out' = [e \in Entry |-> IF e \in Nacked(t) THEN [k |-> "nack", d |-> 0, r |-> r, v |-> "-", at |-> now] ELSE out[e]]
-  /\ ph' = [e \in Entry |-> IF e \in Nacked(t) THEN "fin" ELSE ph[e]]
-  /\ UNCHANGED <<now, up, used, tm, dl, vrun>>
+  /\ LET o == [k |-> "nack", d |-> 0, r |-> r, v |-> "-", at |-> now] IN
+       /\ out' = [e \in Entry |-> IF e \in Nacked(t) /\ aw[e] THEN o ELSE out[e]]
+       /\ buf' = [e \in Entry |-> IF e \in Nacked(t) /\ ~aw[e] THEN o ELSE buf[e]]
+  /\ ph' = [e \in Entry |-> IF e \in Nacked(t) THEN (IF aw[e] THEN "fin" ELSE "ready") ELSE ph[e]]
+  /\ UNCHANGED <<now, up, used, tm, dl, vrun, aw, held>>
 
 \* anything a transport may deliver that addresses nothing: malformed / truncated packets, LP
 \* packets without payload, fragments, unknown types, Data or Nacks nobody waits for
 RecvJunk(j) == up /\ UNCHANGED vars
 
 Next ==
-  \/ \E t \in Templates : Express(t) \/ ExpressDown(t)
+  \/ \E t \in Templates : (\E df \in Defer : Express(t, df)) \/ ExpressDown(t)
   \/ \E d \in DataSet, env \in Envs : RecvData(d, env)
   \/ \E e \in Entry, v \in Verdicts : ValFinish(e, v) \/ LateFinish(e, v)
   \/ Fire \/ Tick \/ Shutdown
-  \/ \E e \in Entry : Cancel(e)
+  \/ \E e \in Entry : Cancel(e) \/ Await(e)
   \/ \E t \in Templates, r \in Reasons, env \in Envs : RecvNack(t, r, env)
   \/ \E j \in Junk : RecvJunk(j)
 
@@ -164,7 +198,7 @@ Spec == Init /\ [][Next]_vars /\ Fairness
 DataById(i) == CHOOSE d \in DataSet : d.id = i
 
 TypeOK == /\ now \in 0..MaxT /\ used \in 0..MaxEntries
-          /\ \A e \in Entry : ph[e] \in {"unused", "pend", "val", "late", "fin"}
+          /\ \A e \in Entry : ph[e] \in {"unused", "pend", "val", "got", "ready", "late", "fin"}
           /\ \A e \in Entry : out[e].k \in {"none", "data", "nack", "timeout", "cancel", "vfail"}
 
 \* C03 exactly once: a finished Interest keeps its outcome for ever
@@ -174,16 +208,22 @@ NoResidue == \A e \in Entry : (ph[e] = "fin") <=> (out[e].k # "none")
 \* the outcome is the right one
 RightOutcome == \A e \in Entry :
   /\ out[e].k = "data" => /\ \E d \in DataSet : d.id = out[e].d /\ Matches(d, tm[e])
-                          /\ (Dev = {} => out[e].at <= dl[e])
+                          /\ (Dev = {} /\ Defer = {FALSE} => out[e].at <= dl[e])
   /\ out[e].k = "vfail" => /\ \E d \in DataSet : d.id = out[e].d /\ Matches(d, tm[e])
                            /\ ~Accepting(out[e].v) /\ out[e].v \in {Reported(v) : v \in Verdicts}
   /\ out[e].k = "timeout" => out[e].at = dl[e]
   /\ out[e].k = "nack" => out[e].r \in Reasons
-  /\ out[e].k # "none" => (out[e].at <= dl[e] \/ Dev # {})
+  /\ out[e].k # "none" => (out[e].at <= dl[e] \/ Dev # {} \/ Defer # {FALSE})
 \* C05: Data is returned only after an accepting verdict for *that* entry; this is an action property
 NoUnvalidatedData ==
   [][\A e \in Entry : (out[e].k = "none" /\ out'[e].k = "data") =>
-        ((vrun[e] # 0 /\ vrun'[e] = 0 /\ out'[e].d = vrun[e] /\ now <= dl[e]) \/ Dev # {})]_vars
+        (\/ (vrun[e] # 0 /\ vrun'[e] = 0 /\ out'[e].d = vrun[e] /\ now <= dl[e])
+         \/ (ph[e] = "ready" /\ buf[e].k = "data" /\ out'[e].d = buf[e].d)
+         \/ Dev # {})]_vars
+\* ... and a buffered Data outcome was itself produced by an accepting verdict
+BufferedValidated ==
+  [][\A e \in Entry : (buf[e].k = "none" /\ buf'[e].k = "data") =>
+        (vrun[e] # 0 /\ vrun'[e] = 0 /\ buf'[e].d = vrun[e])]_vars
 \* one Data satisfies all matching pending Interests and no others
 AllAndOnlyMatching ==
   [][\A d \in DataSet : (\E env \in Envs : RecvData(d, env)) =>
@@ -194,7 +234,11 @@ AllAndOnlyMatching ==
 \* junk changes nothing at all
 JunkInert == [][\A j \in Junk : RecvJunk(j) => UNCHANGED vars]_vars
 \* every expressed Interest eventually finishes
-Finishes == \A e \in Entry : (ph[e] = "pend") ~> (ph[e] = "fin")
+Finishes == \A e \in Entry : (ph[e] = "pend" /\ aw[e]) ~> (ph[e] = "fin")
+\* an outcome decided before the caller awaits is exactly what the caller gets, whenever it awaits
+BufferedIsDelivered ==
+  [][\A e \in Entry : (ph[e] = "ready" /\ ph'[e] = "fin") =>
+        (out'[e].k = buf[e].k /\ out'[e].d = buf[e].d /\ out'[e].r = buf[e].r /\ out'[e].v = buf[e].v)]_vars
 
 \* vacuity witnesses (each must be reachable, i.e. VIOLATED when checked as an invariant)
 W_DataAtDeadline == ~(\E e \in Entry : out[e].k = "data" /\ out[e].at = dl[e])
@@ -202,4 +246,5 @@ W_TimeoutWhileValidating == ~(\E e \in Entry : out[e].k = "timeout" /\ vrun[e] #
 W_TwoSatisfied == ~(Cardinality({e \in Entry : out[e].k = "data"}) >= 2)
 W_NackOne == ~(\E e, f \in Entry : out[e].k = "nack" /\ ph[f] = "pend")
 W_VFail == ~(\E e \in Entry : out[e].k = "vfail")
+W_LateAwaitData == ~(\E e \in Entry : out[e].k = "data" /\ out[e].at > dl[e])
 =============================================================================
